@@ -279,6 +279,37 @@ Definition post_closes (post : str) : bool :=
   match lex_go true Nrm (post ++ q3) with Some (_, []) => true | _ => false end.
 (* the first template character after the escaped text: not a quote, not a backslash *)
 Definition sep_ok (sep : N) : bool := negb ((sep =? 34) || (sep =? 92) || bad_raw sep).
+(* client_visitor: the API description inside the client class docstring (site 16), exactly as the code does it:
+   NUL -> space, QQQ -> apostrophe, three apostrophes -> apostrophe, backslash doubled, str.strip(), textwrap.dedent
+   (after strip() the first line has no margin, so dedent only empties the lines made of blanks), then the whole text is
+   written as one line with rstrip(QUOTE). *)
+Fixpoint repl3c (q : N) (x : str) (t : str) : str :=     (* str.replace(q q q, x) *)
+  match t with
+  | c1 :: r1 =>
+      match r1 with
+      | c2 :: c3 :: r3 => if (c1 =? q) && (c2 =? q) && (c3 =? q) then x ++ repl3c q x r3 else c1 :: repl3c q x r1
+      | _ => c1 :: repl3c q x r1
+      end
+  | [] => []
+  end.
+Definition py_space (c : N) : bool :=     (* str.isspace: what str.strip() removes *)
+  ((9 <=? c) && (c <=? 13)) || ((28 <=? c) && (c <=? 32)) || (c =? 133) || (c =? 160) || (c =? 5760)
+  || ((8192 <=? c) && (c <=? 8202)) || (c =? 8232) || (c =? 8233) || (c =? 8239) || (c =? 8287) || (c =? 12288).
+Fixpoint lstrip (p : N -> bool) (s : str) : str := match s with c :: r => if p c then lstrip p r else s | [] => [] end.
+Definition strip_sp (s : str) : str := rev (lstrip py_space (rev (lstrip py_space s))).
+Definition is_blank (c : N) : bool := (c =? 32) || (c =? 9).
+(* lines (separated by LF) that consist of blanks only become empty *)
+Fixpoint blank_norm_go (cur : str) (s : str) : str :=     (* cur = the current line so far, reversed *)
+  match s with
+  | [] => if forallb is_blank cur then [] else rev cur
+  | c :: r => if c =? 10 then (if forallb is_blank cur then [] else rev cur) ++ 10 :: blank_norm_go [] r
+              else blank_norm_go (c :: cur) r
+  end.
+Definition blank_norm (s : str) : str := blank_norm_go [] s.
+Definition rstrip_q (s : str) : str := rev (lstrip (fun c => c =? 34) (rev s)).
+Definition client_esc (t : str) : str := dbl_bs (repl3c 39 [39] (repl3c 34 [39] (nul_sp t))).
+Definition site_client_desc (t : str) : str := rstrip_q (blank_norm (strip_sp (client_esc t))).
+
 (* text on a line of its own between a line QQQ and a line QQQ (overloaded-method docstring) *)
 Definition site_block_line (t : str) : str := site_block_doc [10] [10] t.
 (* client_visitor: first docstring line  escape({title} (version {version}))  - version text is passed in *)
